@@ -15,7 +15,8 @@ def _sp(rng, decorate):
 
 
 NOISE = ['; a comment line\n', '\n', '#ifdef FLEXIBLE\n', '#endif\n', '#include "ff.itp"\n', ';\n', '  \t \n',
-         ';commented 1 2 3\n', '#define X 1\n', ' ; indented comment\n']
+         ';commented 1 2 3\n', '#define X 1\n', ' ; indented comment\n', '#else\n', '#ifndef POSRES\n', '#undef X\n',
+         '#if 1\n', '#elif 0\n']
 
 
 def _noise(rng, decorate, out, p=0.25):
@@ -138,9 +139,29 @@ def gen_top(rng, n=None, kind=None, decorate=None, repeated=False, multi_res=Non
         out.append(hdr % secname + '\n')
         if decorate and rng.random() < 0.7:
             out.append('; columns of %s\n' % secname)
-        for ln in lines:
+        # balanced conditional blocks around runs of content lines: every line counts, whatever the branch
+        block_at = {}
+        if decorate and len(lines) >= 2 and rng.random() < 0.35:
+            a = int(rng.integers(0, len(lines) - 1))
+            b = int(rng.integers(a + 1, len(lines)))
+            c = int(rng.integers(b, len(lines))) if rng.random() < 0.7 else None
+            block_at[a] = ['#ifdef FLEXIBLE\n', '#ifndef RIGID\n', '#if 1\n'][int(rng.integers(0, 3))]
+            if c is not None and c > b:
+                block_at[b] = '#else\n'
+                block_at[c] = block_at.get(c, '') + '#endif\n' if c not in block_at else block_at[c]
+                classes.add('conditional-block-with-else')
+            else:
+                block_at[b] = '#endif\n'
+            classes.add('conditional-block')
+        closed = True
+        for li, ln in enumerate(lines):
+            if li in block_at:
+                out.append(block_at[li])
+                closed = block_at[li].startswith('#endif')
             _noise(rng, decorate, out)
             out.append((_sp(rng, decorate) if indent else '') + ln + trailing_comment() + '\n')
+        if block_at and not closed:
+            out.append('#endif\n')
         _noise(rng, decorate, out)
         out.append('\n')
 
